@@ -20,10 +20,29 @@ Definition accepted (i : val) : Z + wreq :=
   end.
 (* Request.write (after fixes c496926 505d2ce 4b75bc7 d4ea2c7, see known_findings/C25.txt) writes nothing and returns an error when
    the method is not a token, the request-target has SP/CTL, Host has CR/LF or a header name is not a token *)
+(* transport-level input: [4 [[method path declared delivered early respclose bodyerr] ...]] ; output: [stream ...] *)
+Definition dec_step (v : val) : option tstep :=
+  match v with
+  | VL [VB m; VB p; VZ n; VB d; VZ e; VZ c; VZ x] =>
+    if (n <? 0) || ((n =? 0) && negb (match d with [] => true | _ => false end)) then None
+    else Some {| t_method := m; t_path := p; t_declared := n; t_delivered := d;
+                 t_early := negb (e =? 0); t_respclose := negb (c =? 0); t_bodyerr := negb (x =? 0) |}
+  | _ => None
+  end.
+Definition dec_scenario (i : val) : option (list tstep) :=
+  match i with
+  | VL [VZ t; VL steps] => if t =? 4 then all_some (map dec_step steps) else None
+  | _ => None
+  end.
+Definition run_scenario (i : val) : val :=
+  match dec_scenario i with
+  | Some steps => VL (map VB (run_transport steps [] false))
+  | None => VErr 0
+  end.
 Definition run_C25 (i : val) : val :=
   match accepted i with
   | inr r => if safe_request r then VL [VZ 0; VB (write_request r)] else VL [VZ 2; VB []]
-  | inl c => if c =? 0 then VErr 0
+  | inl c => if c =? 0 then run_scenario i
              else if c =? 98 then VL [VZ 98; VB []]
              else if c =? 2 then VL [VZ 2; VB []] else VL [VZ 1; VB []]
   end.
@@ -35,7 +54,20 @@ Definition agree_C25 (i o : val) : bool := not_modelled i || val_eqb (run_C25 i)
    before or while writing: codes 1, 2), or what was written parses, with the strict reference parser, as
    exactly one request, and that request is the accepted one (method, target, Host, forwarded fields with
    sanitised values, body). *)
+Definition is_scenario (i : val) : bool :=
+  match accepted i with
+  | inl c => (c =? 0) && match dec_scenario i with Some _ => true | None => false end
+  | inr _ => false
+  end.
+(* transport level: every backend connection received a sequence of complete well-formed requests,
+   possibly ending in one request that was cut short *)
+Definition prop_scenario (o : val) : bool :=
+  match as_LB o with
+  | Some streams => forallb (fun s => seq_ok (S (length s)) s) streams
+  | None => false
+  end.
 Definition prop_C25 (i o : val) : bool :=
+  if is_scenario i then prop_scenario o else
   not_modelled i ||
   match o with
   | VL [VZ c; VB out] =>
